@@ -5,6 +5,8 @@ import (
 	"fmt"
 	"os"
 	"path/filepath"
+	"strings"
+	"time"
 )
 
 func c13Record(in c13Input, workdir string, tags []string) (Record, *c13Case) {
@@ -47,6 +49,19 @@ func c13Record(in c13Input, workdir string, tags []string) (Record, *c13Case) {
 		}
 		if wf {
 			rec.Tags = append(rec.Tags, "hist-write-fails")
+		}
+	case "conc":
+		if c.Conc != nil {
+			rec.Nontrivial = c.Conc.Held && len(c.Conc.Writes) >= 2
+			obs["conc_writes"], obs["held"], obs["overran"] = len(c.Conc.Writes), c.Conc.Held, c.Conc.Overran
+			var kinds []string
+			for _, op := range in.Conc {
+				kinds = append(kinds, op.Op)
+			}
+			rec.Tags = append(rec.Tags, "conc-"+strings.Join(kinds, "+"))
+			if !c.Conc.Held {
+				rec.Tags = append(rec.Tags, "conc-not-held")
+			}
 		}
 	case "doc":
 		rec.Nontrivial = c.CinKind == 2
@@ -127,6 +142,18 @@ func c13SelfTests(rec Record, c *c13Case) []Record {
 		}
 		return false
 	})
+	alter("the concurrent block's writes in reverse order", func(cc *c13Case) bool {
+		if cc.Conc == nil || len(cc.Conc.Writes) < 2 {
+			return false
+		}
+		n := *cc.Conc
+		n.Writes = append([]*c13J{}, cc.Conc.Writes...)
+		for i, j := 0, len(n.Writes)-1; i < j; i, j = i+1, j-1 {
+			n.Writes[i], n.Writes[j] = n.Writes[j], n.Writes[i]
+		}
+		cc.Conc = &n
+		return true
+	})
 	alter("an extra request at construction", func(cc *c13Case) bool {
 		cc.ConsReqs = append(append([]string{}, cc.ConsReqs...), "zz")
 		return true
@@ -162,22 +189,24 @@ func runC13(o Opts) {
 	defer os.RemoveAll(workdir)
 
 	ntrace := 0
-	var selfSrc []struct {
-		rec Record
-		c   *c13Case
-	}
+	pool := &c13Pool{work: workdir}
+	defer pool.stop()
+	var selfRecs []Record
+	nself := map[string]int{}
 	emit := func(in c13Input, tags []string, corpus string) {
 		switch in.Kind {
-		case "hist", "doc":
-			rec, c := c13Record(in, workdir, tags)
-			rec.ID = out.n
-			rec.Corpus = corpus
-			out.Emit(rec)
-			if corpus == "" && in.Kind == "hist" && rec.Nontrivial && len(selfSrc) < 4 {
-				selfSrc = append(selfSrc, struct {
-					rec Record
-					c   *c13Case
-				}{rec, c})
+		case "hist", "doc", "conc":
+			// the real store runs in a worker process: a crash or hang costs this one input only
+			want := corpus == "" && o.Replay == "" && ((in.Kind == "hist" && nself["hist"] < 4) || (in.Kind == "conc" && nself["conc"] < 2))
+			recs := pool.do(c13Job{In: in, Tags: tags, Corpus: corpus, Self: want}, 30*time.Second)
+			id := out.n
+			out.Emit(recs[0])
+			if len(recs) > 1 {
+				nself[in.Kind]++
+				for _, st := range recs[1:] {
+					st.SelfOf = id
+					selfRecs = append(selfRecs, st)
+				}
 			}
 		case "trace", "inject":
 			ntrace++
@@ -198,12 +227,12 @@ func runC13(o Opts) {
 	for _, in := range readCorpus[c13Input](o.Corpus) {
 		emit(in, []string{"corpus"}, "corpus")
 	}
-	nh, nd, nb := 400, 900, 150
+	nh, nd, nb, nc := 400, 900, 150, 64
 	if o.Tier == "thorough" {
-		nh, nd, nb = 3000, 8000, 1500
+		nh, nd, nb, nc = 3000, 8000, 1500, 400
 	}
 	if o.N > 0 {
-		nh, nd, nb = o.N, o.N, o.N
+		nh, nd, nb, nc = o.N, o.N, o.N, o.N
 	}
 	r := NewRand(o.Seed, 13)
 	for i := 0; i < nh; i++ {
@@ -235,8 +264,14 @@ func runC13(o Opts) {
 			emit(v, []string{"hist-kth-write-fails"}, "")
 		}
 	}
+	// concurrent calls with a held (slow) cache write
+	rc := NewRand(o.Seed, 1331)
+	for i := 0; i < nc; i++ {
+		emit(c13GenConc(rc, i), nil, "")
+	}
 	r2 := NewRand(o.Seed, 1313)
 	c13GenDocs(r2, nd, func(in c13Input, tags []string) { emit(in, tags, "") })
+	c13GenPartial(r2, func(in c13Input, tags []string) { emit(in, tags, "") })
 	r3 := NewRand(o.Seed, 131313)
 	c13GenBytes(r3, nb, func(in c13Input, tags []string) { emit(in, tags, "") })
 
@@ -248,10 +283,8 @@ func runC13(o Opts) {
 		}
 	}
 
-	for _, s := range selfSrc {
-		for _, rec := range c13SelfTests(s.rec, s.c) {
-			out.Emit(rec)
-		}
+	for _, rec := range selfRecs {
+		out.Emit(rec)
 	}
 	// self-tests of the trace monitor: a non-atomic write and a 0644 temporary must be rejected
 	for _, bad := range []string{
